@@ -6,8 +6,10 @@ EX = ("exploration", "bounded-exhaustive enumeration of inputs/configurations on
 FE = ("fault_enumeration", "exhaustive enumeration of fault placements and byte strings on the real reader against a reference model (hand-written stateless explorer)")
 T = {
  "C01": (MC, "4.1", "every unit sequence up to the depth bound, for every (type, placement, delimiter, short name, build path, option set) cell, is interpreted by the command-line reference model (CLM) and replayed against the real parser; every successful parse is compared field by field", "depth 3 quick / 4 thorough; declarations generated with reflect.StructOf; conversion of alphabet values taken from the conversion model that C11 checks"),
+ "C02": (EX, "4.2", "for every (type, short name incl. multi-byte, optional-argument, PassDoubleDash, context, value) cell all admissible spellings {-xV, -x=V, -x V, --name=V, --name V} x {plain, double-quoted literal} are parsed by the real parser and must yield one identical outcome; flag clusters against their separated form", "values: all strings <= 3 quick / <= 4 thorough over a 12-character alphabet plus hand-picked negative numbers; admissibility rules as stated by the property"),
  "C03": (MC, "4.3", "every token sequence up to the depth bound under all 8 pass-through option sets on 10 declarations: remaining arguments of the real parser vs the CLM, plus the CLM-independent subsequence test and what Execute/CommandHandler received", "depth 4 quick / 5 thorough over a 14-token alphabet; only mutually accepted vectors are compared"),
  "C04": (EX, "4.4", "every byte string up to the bound as a token in 4 positions and every short vector of pathological tokens, under 32 parser option sets and two kitchen-sink declarations: returns normally, error typed as the CLM's fault says, stdout/stderr deltas exactly as PrintErrors prescribes", "byte strings <= 4/5 over 11 bytes; vectors <= 2/3 over 54 tokens; os.Stdout/os.Stderr swapped for files per worker"),
+ "C05": (MC, "4.5", "complete product of value sources (initial, 0..2 default tags, env unset/one/two/empty, 0..2 INI entries, 0..2 occurrences) x 9 types x 10 read/parse histories x env-namespace settings; the per-option history machine {untouched, defaulted, ini, explicit} is replayed on the real Parser/IniParser and the final value compared with the precedence function", "histories are the 10 listed orders; plain-mode INI after a CLI parse and empty env values for non-string types are left out as unspecified"),
  "C06": (MC, "4.6", "all 64 required-masks over a 3-level command tree x positional count constraints x every unit sequence up to the bound: ErrRequired iff the CLM's missing set is non-empty, message names exactly the missing items, nothing executed", "depth 3 quick / 4 thorough; positional layouts deviation-bounded (one layout at a time); names recognised in messages through unique markers"),
  "C07": (MC, "4.7", "7 unknown-option policies x every sequence of valid tokens and near-miss names up to the bound; ErrUnknownFlag naming the option, verbatim pass-through, or exactly one handler call with (name, inline argument, unconsumed tail) and continuation on the returned slice", "depth 4 quick / 5 thorough over 29 units; handler name for clusters not asserted"),
  "C08": (MC, "4.8", "all command trees with <= 4 commands and depth <= 3, aliases / optional marks / name clashes as bounded deviations, both build paths, every token sequence up to the bound: Active chain, scoping (which counter moved), ErrCommandRequired / ErrUnknownCommand against the CLM", "depth 3 quick / 4 thorough; declaration deviations <= 1 quick / <= 2 thorough"),
